@@ -388,6 +388,25 @@ pub fn exec_case<S: Sch>(case: &Case, out: &mut String, with_acc: bool) {
                 }
                 continue;
             }
+            "setcur" => {
+                // replace the current record by a decoded one
+                let buf = unhx(get("buf"));
+                let r = guard(|| {
+                    let mut b: &[u8] = &buf;
+                    Enr::<HKey<S::K>>::decode(&mut b)
+                });
+                match r {
+                    None => writeln!(out, "out res=panic").unwrap(),
+                    Some(Err(x)) => writeln!(out, "out res=err:{}", rlp_err_str(&x)).unwrap(),
+                    Some(Ok(n)) => {
+                        writeln!(out, "out res=ok").unwrap();
+                        *e = n;
+                    }
+                }
+                out.push_str(&rec_line(e));
+                out.push('\n');
+                continue;
+            }
             "redecode" => {
                 let r = guard(|| {
                     let mut v = Vec::new();
@@ -463,10 +482,15 @@ pub fn exec_case<S: Sch>(case: &Case, out: &mut String, with_acc: bool) {
                     .map(|_| "unit".into())
                 }
                 "set_udp_socket" | "set_tcp_socket" => {
-                    let sa = SocketAddr::new(
+                    let mut sa = SocketAddr::new(
                         ip_of(&unhx(get("ip"))).unwrap(),
                         get("port").parse().unwrap(),
                     );
+                    // IPv6 sockets may carry a zone (scope id) and a flow label; neither is stored
+                    if let SocketAddr::V6(v6) = &mut sa {
+                        v6.set_scope_id(get("scope").parse().unwrap_or(0));
+                        v6.set_flowinfo(get("flow").parse().unwrap_or(0));
+                    }
                     if op == "set_udp_socket" {
                         e.set_udp_socket(sa, key)
                     } else {
